@@ -592,6 +592,75 @@ theorem deep_access (ds : DblSem) {h : Deep.Heap} {vars e g c} (hd : Deep.Held h
     ∃ h' b g', Deep.accessCell f ds h c k = some (h', .ptr b) ∧ Deep.Accessed ds h vars e g c k h' b g' :=
   Deep.dinv_access ds hd k hk f hf
 
+/-! ### the property's sentences on the deep model itself (what the driver runs and the correspondence ties)
+
+Corollaries of `deep_driver_refines`: independence, last-assigned value/type and `v == copy(v)` stated directly for the
+heap model with nested lazy sharing (`Deep.ddrive`), not only for the variable-level model. -/
+
+/-- independence on the deep model: after any history, one more operation (any kind, any path, any sharing between the
+    variables and their nested elements at that moment) changes no variable outside its targets -/
+theorem deep_independent (ds : DblSem) (ops : List Op) (op : Op) (hsup : ∀ o ∈ ops ++ [op], Deep.OpSup o)
+    (w : Nat) (hw : w < nvars) (hnt : w ∉ op.targets) :
+    ∃ s s', Deep.ddrive ds Deep.dinit ops = some s ∧ Deep.ddrive ds Deep.dinit (ops ++ [op]) = some s' ∧
+      s'.read w = s.read w := by
+  obtain ⟨s, r, e⟩ := deep_driver_refines ds ops (fun o ho => hsup o (by simp [ho]))
+  obtain ⟨s', r', e'⟩ := deep_driver_refines ds (ops ++ [op]) hsup
+  refine ⟨s, s', r, r', ?_⟩
+  rw [e' w hw, e w hw, specRun_append]
+  exact specRun_frame ds [op] _ w (by intro o ho; simp at ho; subst ho; exact hnt)
+
+/-- the same over a whole tail of operations none of which targets `w` (a copy stays detached from its source) -/
+theorem deep_independent_run (ds : DblSem) (pre post : List Op) (hsup : ∀ o ∈ pre ++ post, Deep.OpSup o)
+    (w : Nat) (hw : w < nvars) (hnt : ∀ op ∈ post, w ∉ op.targets) :
+    ∃ s s', Deep.ddrive ds Deep.dinit pre = some s ∧ Deep.ddrive ds Deep.dinit (pre ++ post) = some s' ∧
+      s'.read w = s.read w := by
+  obtain ⟨s, r, e⟩ := deep_driver_refines ds pre (fun o ho => hsup o (by simp [ho]))
+  obtain ⟨s', r', e'⟩ := deep_driver_refines ds (pre ++ post) hsup
+  refine ⟨s, s', r, r', ?_⟩
+  rw [e' w hw, e w hw, specRun_append]
+  exact specRun_frame ds post _ w hnt
+
+/-- type and value are the last assigned ones, on the deep model: after `v = x` (typed assignment of a scalar or
+    String literal) and any further history that does not target `v`, `v` reads `x` and reports its type -/
+theorem deep_type_value_last_assigned (ds : DblSem) (pre post : List Op) (v : Nat) (x : Val) (hv : v < nvars) (hx : x.type ≠ 0)
+    (hsup : ∀ o ∈ pre ++ [.mut v [] (.set (.lit x))] ++ post, Deep.OpSup o) (hnt : ∀ op ∈ post, v ∉ op.targets) :
+    ∃ s, Deep.ddrive ds Deep.dinit (pre ++ [.mut v [] (.set (.lit x))] ++ post) = some s ∧ s.read v = x ∧ (s.read v).type = x.type := by
+  obtain ⟨s, r, e⟩ := deep_driver_refines ds _ hsup
+  have := value_last_set ds pre post v x hv hx hnt
+  rw [refines ds _ v hv] at this
+  exact ⟨s, r, by rw [e v hv, this], by rw [e v hv, this]⟩
+
+/-- `v == copy(v)` on the deep model: after any history and `Variant v(w)`, the two variables — now two handles to the
+    same blocks — compare equal in both directions (NaN-free values) -/
+theorem deep_eq_copy (ds : DblSem) (ops : List Op) (hsup : ∀ o ∈ ops, Deep.OpSup o) (v w : Nat) (hv : v < nvars) (hw : w < nvars)
+    (hvw : v ≠ w) (hn : NoNaN ds (specRun ds Store.init ops w)) :
+    ∃ s, Deep.ddrive ds Deep.dinit (ops ++ [.copy v w]) = some s ∧
+      veq ds (s.read v) (s.read w) = some true ∧ veq ds (s.read w) (s.read v) = some true := by
+  obtain ⟨s, r, e⟩ := deep_driver_refines ds (ops ++ [.copy v w])
+    (by intro o ho; simp at ho; rcases ho with ho | rfl; exact hsup o ho; trivial)
+  have e2 : specRun ds Store.init (ops ++ [.copy v w]) v = specRun ds Store.init ops w := by
+    rw [specRun_append]; simp [specRun, specStepD, specStep, hv, hw, hvw, upd]
+  have e1 : specRun ds Store.init (ops ++ [.copy v w]) w = specRun ds Store.init ops w := by
+    rw [specRun_append]
+    exact specRun_frame ds [.copy v w] _ w (by intro o ho; simp at ho; subst ho; simpa [Op.targets] using fun x => hvw x.symm)
+  refine ⟨s, r, ?_⟩
+  rw [e v hv, e w hw, e1, e2]
+  exact ⟨veq_refl ds _ hn, veq_refl ds _ hn⟩
+
+/-- `isNull()` and `operator!=` as coded: `data->type == nullType`, `!(*this == other)` -/
+def Val.isNull (v : Val) : Bool := v.type == 0
+def vne (ds : DblSem) (a b : Val) : Option Bool := (veq ds a b).map (!·)
+
+theorem isNull_iff (v : Val) : v.isNull = true ↔ v = .null := by
+  cases v <;> simp [Val.isNull, Val.type]
+
+/-- `v != copy(v)` is false and a null Variant equals exactly the null Variants -/
+theorem ne_copy (ds : DblSem) (v : Val) (h : NoNaN ds v) : vne ds v v = some false := by
+  simp [vne, veq_refl ds v h]
+
+theorem eq_null (ds : DblSem) (o : Val) : veq ds .null o = some o.isNull := by
+  simp [veq, scalarEq, Val.isNull]
+
 /-! ## the finding "self-append" (KF-C07-self-append) as a theorem
 
 `Deep.selfLink ds s v p lk` is what the real code executes for `walkMut(v, p)->toList().append(v)` (`lk`: `append` /
